@@ -676,7 +676,10 @@ class SocketClient:
         fut = self._enqueue(path, data, timeout=enqueue_timeout)
         if response_timeout is not None and response_timeout <= 0:
             return None
-        return fut.result(timeout=response_timeout)
+        if fut.exception(timeout=response_timeout) is not None:
+            # `Future.result` tests the exception by its truth value.
+            raise fut.exception()
+        return fut.result()
 
     def stream(
         self,
@@ -743,7 +746,13 @@ class SocketClient:
                 break
             x, fut, t0 = z
             try:
-                y = fut.result(timeout=response_timeout - (perf_counter() - t0))
+                if (
+                    fut.exception(timeout=response_timeout - (perf_counter() - t0))
+                    is not None
+                ):
+                    # `Future.result` tests the exception by its truth value.
+                    raise fut.exception()
+                y = fut.result()
             except Exception as e:
                 if return_exceptions:
                     if return_x:
